@@ -49,6 +49,7 @@ type c13Case struct {
 	init    map[int]c06Ord    // orders as submitted
 	done    map[int]uint64    // units of COMPLETED batches per order
 	pend    map[int][]uint64  // matches of the batch staged last (nil = nothing staged)
+	pendTx  int               // batch transaction (tag) of the batch staged last
 	boundary, completes, abandoned int
 }
 
@@ -124,6 +125,13 @@ func (c *c13Case) step(op string) {
 			res = c06ErrName(c.bs.MarkBatchComplete())
 		case "discard":
 			res = c06ErrName(d.db.DeletePendingBatch())
+		case "reconnect":
+			// a reconnect between sign (staging) and finalize: the real
+			// Client.checkPendingBatch on the real database
+			res, _ = d.reconnect(f[1], f[2] == "1")
+		case "reconn":
+			// … through the real client's (re-)connection paths
+			res, _ = d.reconnVia(f[1], f[2], f[3] == "1")
 		case "reopen":
 			d.reopen()
 			c.bs = order.VerifStageNewBatchStorer(d.db, d.db.Account)
@@ -143,6 +151,9 @@ func (c *c13Case) step(op string) {
 		return
 	}
 	ok := res == "ok"
+	if f[0] == "reconnect" || f[0] == "reconn" {
+		ok = true
+	}
 	if res == "panic" {
 		r.Count("panic/" + f[0])
 	}
@@ -192,6 +203,7 @@ func (c *c13Case) step(op string) {
 			r.Count("bstage/restage")
 		}
 		c.pend = matched
+		c.pendTx = atoi(f[2])
 		if !ordersSame() {
 			c.violate("staging through batchStorer changed visible orders")
 		}
@@ -295,6 +307,47 @@ func (c *c13Case) step(op string) {
 		if !ordersSame() {
 			c.violate("discard changed visible orders")
 		}
+	case "reconnect", "reconn":
+		// the staged batch survives unless the auctioneer finalised ANOTHER
+		// txid (and cleanup worked); a signed copy of the same transaction is
+		// the same batch. Orders are never touched.
+		rpc, rm := f[1], f[2]
+		if f[0] == "reconn" {
+			rpc, rm = f[2], f[3]
+		}
+		if strings.HasPrefix(res, "hung:") || strings.HasPrefix(res, "panic:") || strings.HasPrefix(res, "setup:") {
+			c.violate("reconnect crashed / did not terminate: %s", res)
+			break
+		}
+		if !ordersSame() {
+			c.violate("reconnect changed visible orders")
+		}
+		wantDiscard := false
+		if c.pend != nil && strings.HasPrefix(rpc, "fin") {
+			t := atoi(rpc[strings.Index(rpc, ":")+1:])
+			wantDiscard = t != c.pendTx && rm == "1"
+			switch {
+			case t == c.pendTx && strings.HasPrefix(rpc, "finw"):
+				r.Count("reconnect/same-tx-signed")
+			case t == c.pendTx:
+				r.Count("reconnect/same-tx-unsigned")
+			default:
+				r.Count("reconnect/other-tx")
+			}
+		} else if c.pend != nil {
+			r.Count("reconnect/pending-" + rpc)
+		}
+		if c.pend != nil && !wantDiscard && ob.P == nil {
+			c.violate("reconnect (%s) dropped the staged batch although the auctioneer did not finalise another "+
+				"transaction: its fills will never reach the orders (%s)", rpc, res)
+		}
+		if wantDiscard {
+			if ob.P != nil {
+				c.violate("auctioneer finalised another transaction but the staged batch was kept (%s)", res)
+			}
+			c.abandoned++
+			c.pend = nil
+		}
 	case "reopen":
 		if ob.str() != prev.str() {
 			c.violate("reopen changed observable state")
@@ -380,6 +433,7 @@ func runC13(r *Run) {
 			ops = append(ops, fmt.Sprintf("submit %d %d %d %d %d %s", n, st, u, units, mn, g.terms()))
 		}
 		var staged map[int]uint64
+		lastTx := 0
 		length := 1 + rng.Intn(25)
 		for j := 0; j < length; j++ {
 			switch x := rng.Intn(100); {
@@ -453,13 +507,41 @@ func runC13(r *Run) {
 					fee = 0
 				}
 				ver := rng.Intn(3)
-				ops = append(ops, fmt.Sprintf("bstage %d %d %d %d %d %d %s %s", 1+rng.Intn(5), 1+rng.Intn(7), fee,
+				lastTx = 1 + rng.Intn(7)
+				ops = append(ops, fmt.Sprintf("bstage %d %d %d %d %d %d %s %s", 1+rng.Intn(5), lastTx, fee,
 					btoi(ver >= 1), btoi(ver >= 2), rng.Intn(1000), joinOr2(mt, "/"), joinOr2(ds, "/")))
 				_ = g
 				// the generator cannot know whether the call succeeds; it
 				// tracks the optimistic case only to aim later batches
 				if fee == 1 && !strings.Contains(joinOr2(mt, "/"), "7:") {
 					staged = next
+				}
+			case x < 63 && lastTx > 0:
+				// reconnect between sign and finalize; the finalised
+				// transaction normally carries witnesses (finw)
+				var rpc string
+				switch y := rng.Intn(20); {
+				case y < 9:
+					rpc = fmt.Sprintf("finw:%d", lastTx)
+				case y < 11:
+					rpc = fmt.Sprintf("fin:%d", lastTx)
+				case y < 14:
+					rpc = fmt.Sprintf("finw:%d", 1+(lastTx+rng.Intn(6))%7)
+				case y < 17:
+					rpc = "err1"
+				case y < 18:
+					rpc = "err0"
+				default:
+					rpc = "mal"
+				}
+				rm := 1
+				if rng.Intn(8) == 0 {
+					rm = 0
+				}
+				if rng.Intn(3) == 0 {
+					ops = append(ops, fmt.Sprintf("reconn %s %s %d", []string{"first", "err", "shut"}[rng.Intn(3)], rpc, rm))
+				} else {
+					ops = append(ops, fmt.Sprintf("reconnect %s %d", rpc, rm))
 				}
 			case x < 75:
 				ops = append(ops, "complete")
